@@ -69,6 +69,13 @@ Theorem c19_model_passes_scan_checker : forall now gdry api g a nodes pods,
 Proof. exact group_passes_C19. Qed.
 Print Assumptions c19_model_passes_scan_checker.
 
+(* what is demanded of the implementation's journals: every Node delete names a node backed by an instance of the all-accepted
+   terminate run directly before its block (plus the calls' shape and the budget) — it follows from the parser above *)
+Theorem c19_deletes_after_accepted_batch : forall now gdry api g a nodes pods,
+  check_C19_group_w (ctx_of now gdry api g a nodes pods) (r_calls (scan_of now gdry api g a nodes pods)) = true.
+Proof. exact group_passes_C19_w. Qed.
+Print Assumptions c19_deletes_after_accepted_batch.
+
 Theorem c19_run_once_full : forall s, wf_groups s -> for_groups check_C19_group s (run_journals s) = true.
 Proof. exact run_passes_C19. Qed.
 Print Assumptions c19_run_once_full.
